@@ -9,7 +9,7 @@ for f in glob.glob(os.path.join(sys.argv[1] if len(sys.argv) > 1 else '/verif/re
         continue
     v = c.get('violation') or {}
     key = (v.get('property'), v.get('class'))
-    n = sum(len(o) for o in (c.get('tasks') or {}).values()) if c.get('tasks') else 10**6
+    n = sum(len(o or []) for o in (c.get("tasks") or {}).values()) if c.get("tasks") else 10**6
     if key not in best or n < best[key][0]:
         best[key] = (n, f, c)
 for key, (n, f, c) in sorted(best.items(), key=lambda kv: str(kv[0])):
